@@ -25,8 +25,11 @@ EXPLANATION = (
     "comparing every (branch, left, right) triple with an independently computed reference; (reach) the Starting / Ending "
     "sequencers select first / last / all children and LeafKind::boundary = {separator, tree wildcard}; (bounds, size) "
     "the two predicates; (all) check returns Ok only after all four rules, and Checked is constructed only in check and "
-    "in transformations of an existing Checked.")
-RULES = "C06.documented (TABLE on a catalogue: verdict vs. the documented rules by expansion), C06.table (TABLE), C06.ctxfree (LOOPDEP + EFFECT), C06.reach (TABLE), C06.bounds / C06.size (TABLE), C06.all (EFFECT+WHO)"
+    "in transformations of an existing Checked; (syntax) on the text catalogue of C01.parse (~12 700 texts; the parser "
+    "evaluated from its THIR with the nom combinators modelled) the parser accepts exactly the texts that are in the "
+    "documented syntax - flags anywhere except inside a tree wildcard or at the very end of a sub-expression, balanced "
+    "delimiters, well-formed bounds and classes, tree wildcards delimited by separators or terminations - and rejects the rest.")
+RULES = "C06.documented (TABLE on a catalogue: verdict vs. the documented rules by expansion), C06.table (TABLE), C06.ctxfree (LOOPDEP + EFFECT), C06.reach (TABLE), C06.bounds / C06.size (TABLE), C06.all (EFFECT+WHO), C06.syntax (TABLE on a text catalogue: parser accepts exactly the documented syntax)"
 
 KINDS = ["sep", "tree-rooted", "tree", "zom", "lit", "branch"]
 BOUNDARY = {"sep", "tree-rooted", "tree"}
@@ -55,6 +58,8 @@ def run(ctx):
     rule_all(F, R)
     from . import exhaust
     exhaust.report_query(F, R, "C06.documented", ctx.tier, "rules", 15000, 15000)
+    from . import parsecat
+    parsecat.report(F, R, "C06.syntax", ctx.tier, ("accepts", "rejects"), 12000)
 
 
 # ---------------------------------------------------------------------------------------------------
